@@ -153,17 +153,11 @@ class MultipartDecoder:
             re.MULTILINE,
         )
 
-    def last_newline(self) -> int:
-        try:
-            last_nl = self.buffer.rindex(b"\n")
-        except ValueError:
-            last_nl = len(self.buffer)
-        try:
-            last_cr = self.buffer.rindex(b"\r")
-        except ValueError:
-            last_cr = len(self.buffer)
-
-        return min(last_nl, last_cr)
+    def last_newline(self, start: int) -> int:
+        # A partial boundary can only begin at a line break at or after
+        # `start`; everything before it is plain data.
+        match = LINE_BREAK_RE.search(self.buffer, max(start, 0))
+        return len(self.buffer) if match is None else match.start()
 
     def receive_data(self, data: Optional[bytes]) -> None:
         if data is None:
@@ -204,12 +198,15 @@ class MultipartDecoder:
                 self.state = State.DATA
 
         elif self.state == State.DATA:
-            if self.buffer.find(b"--" + self.boundary) == -1:
+            boundary_index = self.buffer.find(b"--" + self.boundary)
+            if boundary_index == -1:
                 # No complete boundary in the buffer, but there may be
-                # a partial boundary at the end. As the boundary
-                # starts with either a nl or cr find the earliest and
-                # return up to that as data.
-                data_length = del_index = self.last_newline()
+                # a partial boundary at the end. It is shorter than a
+                # line break plus the boundary, so only look that far
+                # back and return everything before it as data.
+                data_length = del_index = self.last_newline(
+                    len(self.buffer) - len(self.boundary) - 3
+                )
                 more_data = True
             else:
                 match = self.boundary_re.search(self.buffer)
@@ -221,7 +218,7 @@ class MultipartDecoder:
                     data_length = match.start()
                     del_index = match.end()
                 else:
-                    data_length = del_index = self.last_newline()
+                    data_length = del_index = self.last_newline(boundary_index - 2)
                 more_data = match is None
 
             data = bytes(self.buffer[:data_length])
